@@ -34,6 +34,8 @@ inductive EncErr where
   | overflow
   /-- the payload codec refused the row (ormsgpack `TypeError`), nothing is emitted -/
   | codec
+  /-- an extracted comparison operator the model does not know: nothing is emitted -/
+  | unknownOp
   deriving DecidableEq, Repr
 
 inductive DecErr where
@@ -53,12 +55,6 @@ def DecErr.isDataError : DecErr → Bool
   | .badLength => true
   | _ => false
 
-/-- orso/row.py:162-176 after `packb`: size check, then header + payload. `ts` is `time.time_ns()`. -/
-def encodeFrame (ts : Nat) (payload : Bytes) : Except EncErr Bytes :=
-  if payload.length > Gen.Row.maxRecord then .error .tooLarge
-  else if payload.length ≥ 256 ^ Gen.Row.lenWidth ∨ ts ≥ 256 ^ Gen.Row.tsWidth then .error .overflow
-  else .ok (header payload.length ts ++ payload)
-
 /-- A comparison operator given by its source text. -/
 def cmpOp (op : String) (a b : Int) : Option Bool :=
   if op = "<" then some (decide (a < b))
@@ -68,6 +64,35 @@ def cmpOp (op : String) (a b : Int) : Option Bool :=
   else if op = "==" then some (decide (a = b))
   else if op = "!=" then some (decide (a ≠ b))
   else none
+
+/-- One operand of the `+` chain `as_bytes` returns (orso/row.py:170-175), by its role: the constant
+prefix, `len(payload).to_bytes(…)`, `time.time_ns().to_bytes(…)`, the packed payload. -/
+def part (name : String) (len ts : Nat) (payload : Bytes) : Bytes :=
+  if name = "prefix" then Gen.Row.headerPrefix
+  else if name = "len" then toBytes Gen.Row.lenWidth len
+  else if name = "ts" then toBytes Gen.Row.tsWidth ts
+  else if name = "payload" then payload
+  else []
+
+/-- The record as the source assembles it: the extracted operands in the extracted order. -/
+def frameBytes (len ts : Nat) (payload : Bytes) : Bytes :=
+  Gen.Row.frameLayout.foldr (fun name acc => part name len ts payload ++ acc) []
+
+/-- orso/row.py:163-168,172-173: what `as_bytes` decides from `record_size = len(record_bytes)` and
+the clock alone — the cap test (extracted operator), then the two `to_bytes` widths. -/
+def frameDecision (ts len : Nat) : Option EncErr :=
+  match cmpOp Gen.Row.capOp len Gen.Row.maxRecord with
+  | none => some .unknownOp
+  | some over =>
+    if over then some .tooLarge
+    else if len ≥ 256 ^ Gen.Row.lenWidth ∨ ts ≥ 256 ^ Gen.Row.tsWidth then some .overflow
+    else none
+
+/-- orso/row.py:162-176 after `packb`: size check, then the parts. `ts` is `time.time_ns()`. -/
+def encodeFrame (ts : Nat) (payload : Bytes) : Except EncErr Bytes :=
+  match frameDecision ts payload.length with
+  | some e => .error e
+  | none => .ok (frameBytes payload.length ts payload)
 
 /-- Unchecked `data_ptr[i]`: CPython `bytes` carry a trailing NUL, reads at `len` give 0; the
 guards below never read further on an accepted path with the pinned constants. -/
@@ -81,21 +106,41 @@ def recordSize (data : Bytes) : Int :=
   let v : Nat := raw % 2 ^ 32
   if v ≥ 2 ^ 31 then (v : Int) - 2 ^ 32 else (v : Int)
 
-/-- compiled.pyx:41-62: the three guards, in order; returns `data[HEADER_SIZE:]`. -/
-def checkFrame (data : Bytes) : Except DecErr Bytes :=
-  let length : Int := data.length
+/-- The outcome of one test: `none` = an operator the model does not know, `some none` = passed,
+`some (some e)` = the `DataError` it raises. -/
+def verdict (r : Option Bool) (e : DecErr) : Option (Option DecErr) :=
+  match r with
+  | none => none
+  | some b => some (if b then some e else none)
+
+/-- One of the three tests of compiled.pyx:47-59 by name (`none` for an unknown name). `length` is
+`PyBytes_GET_SIZE(data)`. -/
+def guard (name : String) (length : Int) (data : Bytes) : Option (Option DecErr) :=
   let hs : Int := Gen.Row.decHeaderSize
-  match cmpOp Gen.Row.guardSizeOp length hs with
-  | none => .error .unknownOp
-  | some short =>
-    -- `length < HEADER_SIZE or (data_ptr[0] & 0xF0 != 0x10)` (short-circuit `or`)
-    if short || (byteAt data 0 &&& Gen.Row.nibbleMask) != Gen.Row.nibbleValue then .error .malformed
-    else
-      match cmpOp Gen.Row.guardLenOp (recordSize data) (length - hs) with
-      | none => .error .unknownOp
-      | some bad =>
-        if bad then .error .badLength
-        else .ok (data.drop Gen.Row.decHeaderSize)
+  if name = "size" then verdict (cmpOp Gen.Row.guardSizeOp length hs) .malformed
+  else if name = "version" then
+    verdict (some ((byteAt data 0 &&& Gen.Row.nibbleMask) != Gen.Row.nibbleValue)) .malformed
+  else if name = "length" then verdict (cmpOp Gen.Row.guardLenOp (recordSize data) (length - hs)) .badLength
+  else none
+
+def runGuards (length : Int) (data : Bytes) : List String → Except DecErr Unit
+  | [] => .ok ()
+  | g :: gs =>
+    match guard g length data with
+    | none => .error .unknownOp
+    | some (some e) => .error e
+    | some none => runGuards length data gs
+
+/-- compiled.pyx:41-59: the guards in the extracted order. They read `length` and the first bytes
+of the buffer only (offset 0 and the extracted offsets of the length field). -/
+def checkHead (length : Nat) (data : Bytes) : Except DecErr Unit :=
+  runGuards (length : Int) data Gen.Row.guardOrder
+
+/-- compiled.pyx:41-62: the guards, then `data[HEADER_SIZE:]` (the extracted slice start). -/
+def checkFrame (data : Bytes) : Except DecErr Bytes :=
+  match checkHead data.length data with
+  | .error e => .error e
+  | .ok _ => .ok (data.drop Gen.Row.payloadStart)
 
 /-- Guards, then the payload codec (`unpackb(data[HEADER_SIZE:])`). -/
 def decodeWith {α : Type} (unpack : Bytes → Option α) (data : Bytes) : Except DecErr α :=
